@@ -1067,7 +1067,19 @@ impl Databases {
         let since_the_epoch = start
             .duration_since(UNIX_EPOCH)
             .expect("Time went backwards");
-        since_the_epoch.as_nanos() as u64
+        let now = since_the_epoch.as_nanos() as u64;
+        // The clock gives the ids their order, but two sessions can read the same instant and
+        // everything kept per operation (pending messages, acks, conflicts) is keyed by the id:
+        // never hand the same one out twice
+        static LAST_OP_LOG_ID: std::sync::atomic::AtomicU64 = std::sync::atomic::AtomicU64::new(0);
+        let mut last = LAST_OP_LOG_ID.load(Ordering::SeqCst);
+        loop {
+            let next = if now > last { now } else { last + 1 };
+            match LAST_OP_LOG_ID.compare_exchange(last, next, Ordering::SeqCst, Ordering::SeqCst) {
+                Ok(_) => return next,
+                Err(current) => last = current,
+            }
+        }
     }
 
     pub fn promote_member(&self, name: &String) {
